@@ -111,9 +111,47 @@ func (g *Gen) attestLargeQuorums() {
 	}
 }
 
+// attestNearAddresses: two attesters whose Ethereum addresses share their first four bytes (found once by a birthday
+// search over deterministic keys: `harness findnear`): address order is decided by the fifth byte onwards.  Honest quorum
+// in order; the same two reversed; one of them twice.
+func (g *Gen) attestNearAddresses() {
+	type ks struct {
+		k    *ecdsa.PrivateKey
+		addr []byte
+		hexs string
+	}
+	var pair []ks
+	for _, i := range []int{94033, 96515} {
+		h := sha256.Sum256([]byte(fmt.Sprintf("near-attester-%d", i)))
+		k, err := crypto.ToECDSA(h[:])
+		if err != nil {
+			return
+		}
+		pair = append(pair, ks{k, crypto.PubkeyToAddress(k.PublicKey).Bytes(), "0x" + hx(crypto.FromECDSAPub(&k.PublicKey))})
+	}
+	if !bytes.Equal(pair[0].addr[:4], pair[1].addr[:4]) {
+		return
+	}
+	sort.Slice(pair, func(a, b int) bool { return bytes.Compare(pair[a].addr, pair[b].addr) < 0 })
+	attesters := []string{pair[0].hexs, pair[1].hexs, g.pubHex[0]}
+	for r := 0; r < 3; r++ {
+		msg := g.randBytes(30 + r)
+		sig := func(k ks) []byte {
+			s, _ := crypto.Sign(crypto.Keccak256(msg), k.k)
+			return s
+		}
+		a, b := sig(pair[0]), sig(pair[1])
+		g.verifyOp(msg, append(append([]byte{}, a...), b...), attesters, 2)
+		g.verifyOp(msg, append(append([]byte{}, b...), a...), attesters, 2)
+		g.verifyOp(msg, append(append([]byte{}, a...), a...), attesters, 2)
+		g.verifyOp(msg, append(append([]byte{}, b...), b...), attesters, 2)
+	}
+}
+
 func scnAttest(g *Gen, budget int, arg string) {
 	g.config()
 	g.attestLargeQuorums()
+	g.attestNearAddresses()
 	for g.nOps < budget {
 		n := 1 + g.pick(5) // enabled set size
 		t := 1 + g.pick(n) // threshold
@@ -505,6 +543,29 @@ func (g *Gen) recvOddShapes() {
 				msg = buildMessage(0, 1, 4, g.freshNonce(1), g.rand32(), g.otherRecipient(), c.caller, g.randBytes(6))
 			}
 			g.tx("ReceiveMessage", g.opReceive(c.from, msg, attOpts{}))
+		}
+	}
+	// (a') a message that is NOT for the module but comes from the registered token messenger of its domain (or carries a
+	// burn-shaped body): whatever the burn / mint flag says it is an ordinary message, and while sending is not paused it
+	// is received
+	for _, burnPausedNow := range []bool{true, false} {
+		if burnPausedNow {
+			g.pauseTx("BurningAndMinting", true)
+		}
+		for k := 0; k < 3; k++ {
+			body := g.randBytes(11)
+			if k == 1 {
+				body = buildBurnBody(0, token(0), pad32(g.acctRaw[1]), big.NewInt(9), g.rand32())
+			}
+			sender := messengerAddr(1)
+			if k == 2 {
+				sender = g.rand32()
+			}
+			msg := buildMessage(0, 1, 4, g.freshNonce(1), sender, g.otherRecipient(), make([]byte, 32), body)
+			g.tx("ReceiveMessage", g.opReceive(g.acct[1], msg, attOpts{}))
+		}
+		if burnPausedNow {
+			g.pauseTx("BurningAndMinting", false)
 		}
 	}
 	// (b)
